@@ -25,6 +25,9 @@ REQUIRED_EVENTS = ["operations", "multi_instance_cases", "write_handler_calls", 
                    "vetoed_writes", "publications_observed"]
 
 
+QUICK_SHARDS = 4
+
+
 def make_spec(rng):
     def els(n, kind, **kw):
         out = []
@@ -444,7 +447,7 @@ def judge(ctx, case, op, kind, v, vec, el, ename, old, olds, native, returned, s
 
 
 def run(ctx):
-    n = 3000 if not ctx.thorough else 200000
+    n = 12000 if not ctx.thorough else 200000
     for i in range(n):
         if not ctx.mine(i):
             continue
